@@ -17,7 +17,7 @@ from sim import child, gen
 ID = 'C14'
 LEVEL = 'fault_enumeration'
 TIERS = {
-    'quick': {'subseeds': 48, 'corruptions': 10, 'pairs': 4, 'wall_budget': 200, 'min_runs': 250},
+    'quick': {'subseeds': 96, 'corruptions': 10, 'pairs': 4, 'wall_budget': 200, 'min_runs': 250},
     'thorough': {'subseeds': 1500, 'corruptions': 30, 'pairs': 10, 'wall_budget': 3000, 'min_runs': 400},
 }
 RULE = ('one case = one simulated CLI run of a generated (ISA, program, options) world with one fault plan / '
